@@ -841,7 +841,7 @@ impl IterativeDeepeningSearch {
                 let exec_result = exec_dfs.search_with_execution(root_goal, facts, kb);
                 // Aggregate explored goals
                 let mut final_result = exec_result;
-                final_result.goals_explored += cumulative_goals - final_result.goals_explored;
+                final_result.goals_explored = cumulative_goals;
                 return final_result;
             }
         }
